@@ -108,18 +108,20 @@ def replay_case(arg):
         calls.append(np.array(kw.get('parameters', a[0] if a else None), dtype=float).copy())
         return orig_sample(*a, **kw)
     init = None
+    # the seed of the initial points: zero (a legal seed that is falsy), an ordinary int or a NumPy integer, by content
+    iseed = [0, 5 + seed, np.int64(5 + seed)][int(key, 16) % 3]
     try:
         with warnings.catch_warnings():
             warnings.simplefilter('ignore')
             pop.sample = rec_sample
             try:
-                init = np.asarray(post.sample_initial_parameters(n_samples=3, seed=5 + seed), dtype=float)
+                init = np.asarray(post.sample_initial_parameters(n_samples=3, seed=iseed), dtype=float)
             finally:
                 del pop.sample
-            again = np.asarray(post.sample_initial_parameters(n_samples=3, seed=5 + seed), dtype=float)
+            again = np.asarray(post.sample_initial_parameters(n_samples=3, seed=iseed), dtype=float)
             np.random.seed(99)
             np.random.normal(size=3)
-            third = np.asarray(post.sample_initial_parameters(n_samples=3, seed=5 + seed), dtype=float)
+            third = np.asarray(post.sample_initial_parameters(n_samples=3, seed=iseed), dtype=float)
     except Exception as e:
         fail('SampleInitial', type(e).__name__, repr(e))
     if init is not None:
